@@ -332,9 +332,13 @@ class StreamResponse(
             return
         assert self._payload_writer is not None
         self._headers[hdrs.CONTENT_ENCODING] = coding.value
-        self._payload_writer.enable_compression(
-            coding.value, self._compression_strategy
-        )
+        if not self._must_be_empty_body:
+            # HEAD/204/304 announce the coding but carry no content: a
+            # compressor on the writer would still emit its flush bytes
+            # after the headers.
+            self._payload_writer.enable_compression(
+                coding.value, self._compression_strategy
+            )
         # Compressed payload may have different content length,
         # remove the header
         self._headers.popall(hdrs.CONTENT_LENGTH, None)
